@@ -118,6 +118,8 @@ class Interp(StmtMixin, ObjMixin):
             return v
         if name in self.builtins:
             return self.builtins[name]
+        if name in ('__file__', '__name__'):
+            return self.module_get(fr.module, name)
         raise PyExc(self.mk_exc('NameError', f"name '{name}' is not defined"))
 
     def store_name(self, name, val, fr: Frame):
